@@ -937,3 +937,61 @@ def r_structsize(repo, tier):
     if n < 50:
         raise AnalysisError("R-STRUCTSIZE: only %d record definitions found" % n)
     return out
+
+
+# =========================================================================================== address composition in HEX / SREC
+def r_oradd(repo, tier):
+    out = RuleOut(
+        "R-ORADD",
+        "Intel-HEX / S-record loaders compose a load address from a base (segment << 4 or upper word << 16) and a record offset by "
+        "addition.  A bitwise OR is the same only if the two cannot overlap: wherever `|` combines a value derived from a left shift "
+        "by k with a record address field of w hex digits (4*w bits), k >= 4*w is required -- otherwise carries are lost",
+    )
+    n = 0
+    for rel in (HEX, SREC):
+        m = repo.mod(rel)
+        for f in m.functions.values():
+            # shift amounts flowing into each local: name -> set of k
+            sh = {}
+            changed = True
+            while changed:
+                changed = False
+                for a in ast.walk(f.node):
+                    if isinstance(a, ast.Assign) and isinstance(a.targets[0], ast.Name):
+                        ks = set()
+                        for x in ast.walk(a.value):
+                            if isinstance(x, ast.BinOp) and isinstance(x.op, ast.LShift) and isinstance(x.right, ast.Constant):
+                                ks.add(x.right.value)
+                            if isinstance(x, ast.BinOp) and isinstance(x.op, ast.Mult) and isinstance(x.right, ast.Constant) and x.right.value in (16, 65536):
+                                ks.add(4 if x.right.value == 16 else 16)
+                            if isinstance(x, ast.Name) and x.id in sh:
+                                ks |= sh[x.id]
+                        if ks - sh.get(a.targets[0].id, set()):
+                            sh.setdefault(a.targets[0].id, set()).update(ks)
+                            changed = True
+            for b in ast.walk(f.node):
+                if isinstance(b, ast.BinOp) and isinstance(b.op, (ast.BitOr, ast.Add)):
+                    sides = [b.left, b.right]
+                    addr = [s_ for s_ in sides if any(isinstance(x, ast.Attribute) and x.attr == "address" for x in ast.walk(s_))]
+                    base = [s_ for s_ in sides if s_ not in addr]
+                    if not addr or not base:
+                        continue
+                    ks = set()
+                    for x in ast.walk(base[0]):
+                        if isinstance(x, ast.Name) and x.id in sh:
+                            ks |= sh[x.id]
+                        if isinstance(x, ast.BinOp) and isinstance(x.op, ast.LShift) and isinstance(x.right, ast.Constant):
+                            ks.add(x.right.value)
+                        if isinstance(x, ast.BinOp) and isinstance(x.op, ast.Mult) and isinstance(x.right, ast.Constant) and x.right.value in (16, 65536):
+                            ks.add(4 if x.right.value == 16 else 16)
+                    if not ks:
+                        continue
+                    n += 1
+                    is_or = isinstance(b.op, ast.BitOr)
+                    out.inst("%s::%s" % (f.key, norm(b)), {"function": f.dqual, "composition": norm(b), "operator": "|" if is_or else "+", "base_shifts": sorted(ks)})
+                    if is_or and min(ks) < 16:
+                        out.report(rel, f.dqual, "address %s" % norm(b), b.lineno, "the load address is composed with `|` from a base that can be a value shifted left by only %d bits and a 16-bit record address: overlapping bits are or-ed instead of added (segment 0x0123, offset 0x0FF0 gives 0x1FF0 instead of 0x2220)" % min(ks))
+    out.stats["compositions"] = n
+    if n < 1:
+        raise AnalysisError("R-ORADD: no base+offset address composition found in HEX/SREC loaders")
+    return out
